@@ -7,6 +7,7 @@ From HV Require Import Base.Bytes Gen.Tables Text.XmlEscape Text.XmlEscapeProofs
 From HV Require Bitmap.BitmapText.
 Import ListNotations.
 Local Open Scope N_scope.
+Ltac Zify.zify_post_hook ::= Z.div_mod_to_equations.
 
 (* ---------- attribute lists ---------- *)
 Lemma skip_blanks_idem s : skip_blanks (skip_blanks s) = skip_blanks s.
@@ -114,19 +115,19 @@ Proof.
 Qed.
 
 (* ---------- the 255-byte line buffer of the distances export ---------- *)
-Definition line_fits {A} (render : A -> list N) (c : list A) : bool :=
-  N.of_nat (length (flat_map (fun x => render x ++ [32]) c)) <? 255.
-Definition array_fits {A} (render : A -> list N) (l : list A) : bool :=
-  forallb (line_fits render) (chunks10 (length l) l).
+Definition line_fits {A} (bufsize : N) (render : A -> list N) (c : list A) : bool :=
+  N.of_nat (length (flat_map (fun x => render x ++ [32]) c)) <? bufsize.
+Definition array_fits {A} (bufsize : N) (render : A -> list N) (l : list A) : bool :=
+  forallb (line_fits bufsize render) (chunks10 (length l) l).
 
-Lemma array_nodes_some {A} tag (render : A -> list N) l :
-  array_nodes tag render l <> None <-> array_fits render l = true.
+Lemma array_nodes_some {A} bufsize tag (render : A -> list N) l :
+  array_nodes bufsize tag render l <> None <-> array_fits bufsize render l = true.
 Proof.
   unfold array_nodes, array_fits.
   match goal with |- context [forallb fst (map ?f ?ch)] => set (mk := f); set (cs := ch) end.
-  assert (E : forallb fst (map mk cs) = forallb (line_fits render) cs).
+  assert (E : forallb fst (map mk cs) = forallb (line_fits bufsize render) cs).
   { clear. induction cs as [|c cs IH]; [reflexivity|]. cbn [map forallb]. rewrite IH. reflexivity. }
-  rewrite E. destruct (forallb (line_fits render) cs); split; congruence.
+  rewrite E. destruct (forallb (line_fits bufsize render) cs); split; congruence.
 Qed.
 
 (* a concrete loaded topology on which the faithful model of the export runs past the buffer: twenty objects whose
@@ -142,25 +143,28 @@ Definition overflow_topo : topo :=
      t_allowed_cpuset := empty_bm; t_allowed_nodeset := empty_bm; t_distances := [overflow_dist];
      t_support := None; t_memattrs := []; t_cpukinds := []; t_infos := [] |}.
 
-Lemma export_overflow_refuted_l : export_bytes false false overflow_topo = None.
+(* before /repo commit 3181493 (255-byte buffer) the export of this topology ran past the buffer; the committed code exports it *)
+Lemma export_overflow_before_fix_l : export_bytes_gen false false overflow_topo GPINDEX_BUF_OLD = None.
 Proof. vm_compute. reflexivity. Qed.
+Lemma export_overflow_fixed_l : export_bytes false false overflow_topo <> None.
+Proof. vm_compute. discriminate. Qed.
 
 (* the export is defined exactly when every distances line fits *)
-Definition dist_fits (d : dist) : bool :=
-  (if d_hetero d then array_fits (fun tg => type_string (fst tg) ++ [58] ++ dec (snd tg)) (d_objs d)
-   else array_fits dec (d_indexes d)) && array_fits dec (d_values d).
+Definition dist_fits (gpbuf : N) (d : dist) : bool :=
+  (if d_hetero d then array_fits gpbuf (fun tg => type_string (fst tg) ++ [58] ++ dec (snd tg)) (d_objs d)
+   else array_fits ARRAY_BUF dec (d_indexes d)) && array_fits ARRAY_BUF dec (d_values d).
 
-Lemma dist_node_some v2 d : dist_node v2 d <> None <-> dist_fits d = true.
+Lemma dist_node_some gpbuf v2 d : dist_node_gen v2 gpbuf d <> None <-> dist_fits gpbuf d = true.
 Proof.
-  unfold dist_node, dist_fits.
-  pose proof (array_nodes_some "indexes" (fun tg : N * N => type_string (fst tg) ++ [58] ++ dec (snd tg)) (d_objs d)) as H1.
-  pose proof (array_nodes_some "indexes" dec (d_indexes d)) as H2.
-  pose proof (array_nodes_some "u64values" dec (d_values d)) as H3.
+  unfold dist_node_gen, dist_fits.
+  pose proof (array_nodes_some gpbuf "indexes" (fun tg : N * N => type_string (fst tg) ++ [58] ++ dec (snd tg)) (d_objs d)) as H1.
+  pose proof (array_nodes_some ARRAY_BUF "indexes" dec (d_indexes d)) as H2.
+  pose proof (array_nodes_some ARRAY_BUF "u64values" dec (d_values d)) as H3.
   destruct (d_hetero d).
-  - destruct (array_nodes "indexes" _ (d_objs d)); destruct (array_nodes "u64values" dec (d_values d));
-      destruct (array_fits _ (d_objs d)); destruct (array_fits dec (d_values d)); cbn [andb]; intuition congruence.
-  - destruct (array_nodes "indexes" dec (d_indexes d)); destruct (array_nodes "u64values" dec (d_values d));
-      destruct (array_fits dec (d_indexes d)); destruct (array_fits dec (d_values d)); cbn [andb]; intuition congruence.
+  - destruct (array_nodes gpbuf "indexes" _ (d_objs d)); destruct (array_nodes ARRAY_BUF "u64values" dec (d_values d));
+      destruct (array_fits gpbuf _ (d_objs d)); destruct (array_fits ARRAY_BUF dec (d_values d)); cbn [andb]; intuition congruence.
+  - destruct (array_nodes ARRAY_BUF "indexes" dec (d_indexes d)); destruct (array_nodes ARRAY_BUF "u64values" dec (d_values d));
+      destruct (array_fits ARRAY_BUF dec (d_indexes d)); destruct (array_fits ARRAY_BUF dec (d_values d)); cbn [andb]; intuition congruence.
 Qed.
 
 Lemma opt_all_some {A} (l : list (option A)) : opt_all l <> None <-> Forall (fun o => o <> None) l.
@@ -175,17 +179,135 @@ Proof.
   - split; [intros H; now exfalso|]. intros H. inversion H as [|? ? Hx _]; subst. now exfalso.
 Qed.
 
-Lemma export_defined_iff_l v2 ud T :
-  export_bytes v2 ud T <> None <-> forallb dist_fits (t_distances T) = true.
+Lemma export_defined_iff_l gpbuf v2 ud T :
+  export_bytes_gen v2 ud T gpbuf <> None <-> forallb (dist_fits gpbuf) (t_distances T) = true.
 Proof.
-  unfold export_bytes, topology_node.
-  assert (E : dist_nodes v2 T <> None <-> forallb dist_fits (t_distances T) = true).
-  { unfold dist_nodes. rewrite opt_all_some, Forall_app, !Forall_map, !Forall_forall.
+  unfold export_bytes_gen, topology_node_gen.
+  assert (E : dist_nodes_gen v2 T gpbuf <> None <-> forallb (dist_fits gpbuf) (t_distances T) = true).
+  { unfold dist_nodes_gen. rewrite opt_all_some, Forall_app, !Forall_map, !Forall_forall.
     rewrite forallb_forall. split.
-    - intros [H1 H2] d Hd. apply (dist_node_some v2).
+    - intros [H1 H2] d Hd. apply (dist_node_some gpbuf v2).
       destruct (d_hetero d) eqn:Eh; [apply H2|apply H1]; apply filter_In; split; auto. now rewrite Eh.
     - intros H. split; intros d Hd; apply filter_In in Hd; destruct Hd as [Hd _]; apply dist_node_some, H, Hd. }
-  destruct (dist_nodes v2 T) as [l|].
+  destruct (dist_nodes_gen v2 T gpbuf) as [l|].
   - split; intros _; [apply E|]; discriminate.
   - split; intros H; [exfalso; now apply H|apply E in H; exfalso; now apply H].
+Qed.
+
+(* ---------- at most 20 digits for a 64-bit value ---------- *)
+Lemma dec_fixed_length k v : length (BitmapText.dec_fixed k v) = k.
+Proof. revert v. induction k as [|k IH]; intros v; [reflexivity|]. cbn [BitmapText.dec_fixed]. rewrite app_length, IH. cbn. lia. Qed.
+
+Lemma dec_fixed_zero k : BitmapText.dec_fixed k 0 = repeat 48 k.
+Proof.
+  induction k as [|k IH]; [reflexivity|]. cbn [BitmapText.dec_fixed]. change (0 / 10) with 0. rewrite IH.
+  change (48 + 0 mod 10) with 48. clear IH. induction k as [|k IH]; [reflexivity|]. cbn [repeat app]. now rewrite IH.
+Qed.
+
+Lemma repeat_snoc {A} (x : A) k : repeat x k ++ [x] = x :: repeat x k.
+Proof. induction k as [|k IH]; [reflexivity|]. cbn [repeat app]. now rewrite IH. Qed.
+
+(* leading digits are zeros *)
+Lemma dec_fixed_lead : forall m k v, (m <= k)%nat -> v < 10 ^ N.of_nat m ->
+  BitmapText.dec_fixed k v = repeat 48 (k - m) ++ BitmapText.dec_fixed m v.
+Proof.
+  induction m as [|m IH]; intros k v Hk Hv.
+  - assert (v = 0) by (cbn in Hv; lia). subst. rewrite dec_fixed_zero. cbn [BitmapText.dec_fixed]. rewrite app_nil_r. f_equal. lia.
+  - destruct k as [|k]; [lia|]. cbn [BitmapText.dec_fixed].
+    assert (Hv' : v / 10 < 10 ^ N.of_nat m).
+    { rewrite Nat2N.inj_succ, N.pow_succ_r' in Hv. lia. }
+    rewrite (IH k (v / 10)) by (auto; lia).
+    replace (S k - S m)%nat with (k - m)%nat by lia. rewrite <- app_assoc. reflexivity.
+Qed.
+
+Lemma strip0_length (l : list N) : (length (BitmapText.strip0 l) <= length l)%nat.
+Proof.
+  induction l as [|d l IH]; [cbn; lia|].
+  destruct l as [|e l]; [cbn; lia|].
+  change (BitmapText.strip0 (d :: e :: l)) with (if d =? 48 then BitmapText.strip0 (e :: l) else d :: e :: l).
+  destruct (d =? 48); cbn [length] in *; lia.
+Qed.
+
+Lemma strip0_zeros j (l : list N) : (length (BitmapText.strip0 (repeat 48%N j ++ l)) <= Nat.max 1 (length l))%nat.
+Proof.
+  induction j as [|j IH]; cbn [repeat app].
+  - pose proof (strip0_length l). lia.
+  - destruct (repeat 48 j ++ l) as [|e r] eqn:E; [cbn [BitmapText.strip0 length]; pose proof (Nat.le_max_l 1 (length l)); lia|].
+    change (BitmapText.strip0 (48 :: e :: r)) with (if 48 =? 48 then BitmapText.strip0 (e :: r) else 48 :: e :: r).
+    change (48 =? 48) with true. cbv iota. exact IH.
+Qed.
+
+Lemma dec_length_u64 v : v < 2 ^ 64 -> (length (XmlExport.dec v) <= 20)%nat.
+Proof.
+  intros Hv. unfold XmlExport.dec, BitmapText.dec.
+  set (k := S (N.to_nat (N.size v))).
+  destruct (Nat.le_gt_cases 20 k) as [Hk|Hk].
+  - rewrite (dec_fixed_lead 20 k v Hk) by (change (10 ^ N.of_nat 20) with 100000000000000000000; change (2 ^ 64) with 18446744073709551616 in Hv; lia).
+    pose proof (strip0_zeros (k - 20) (BitmapText.dec_fixed 20 v)) as H. rewrite dec_fixed_length in H. lia.
+  - pose proof (strip0_length (BitmapText.dec_fixed k v)) as H. rewrite dec_fixed_length in H. lia.
+Qed.
+
+(* ---------- totality of the export (code as committed, after /repo 3181493) ---------- *)
+Definition u64 (v : N) : Prop := v < 2 ^ 64.
+Definition dist_wf (d : dist) : Prop :=
+  Forall u64 (d_values d) /\ Forall u64 (d_indexes d) /\ Forall (fun tg => fst tg < HWLOC_OBJ_TYPE_MAX /\ u64 (snd tg)) (d_objs d).
+
+Lemma type_string_len_all : forallb (fun ty => (length (type_string ty) <=? 8)%nat) (Base64Proofs.range 20) = true.
+Proof. vm_compute. reflexivity. Qed.
+Lemma type_string_len ty : ty < HWLOC_OBJ_TYPE_MAX -> (length (type_string ty) <= 8)%nat.
+Proof.
+  intros H. apply Nat.leb_le. apply (Base64Proofs.forall_range _ 20 type_string_len_all).
+  unfold HWLOC_OBJ_TYPE_MAX in H. lia.
+Qed.
+
+Lemma Forall_firstn {A} (P : A -> Prop) n l : Forall P l -> Forall P (firstn n l).
+Proof. revert l. induction n as [|n IH]; intros [|x l] H; cbn [firstn]; auto. inversion H; subst. constructor; auto. Qed.
+Lemma Forall_skipn {A} (P : A -> Prop) n l : Forall P l -> Forall P (skipn n l).
+Proof. revert l. induction n as [|n IH]; intros [|x l] H; cbn [skipn]; auto. inversion H; subst. auto. Qed.
+
+Lemma chunks10_spec {A} (P : A -> Prop) : forall fuel l, Forall P l ->
+  Forall (fun c => (length c <= 10)%nat /\ Forall P c) (chunks10 fuel l).
+Proof.
+  induction fuel as [|f IH]; intros l H; [constructor|].
+  cbn [chunks10]. destruct l as [|x l]; [constructor|].
+  constructor; [split; [rewrite firstn_length; lia|now apply Forall_firstn]|].
+  apply IH. now apply Forall_skipn.
+Qed.
+
+Lemma flat_map_len_bound {A} (render : A -> list N) (P : A -> Prop) B c :
+  (forall x, P x -> (length (render x) <= B)%nat) -> Forall P c ->
+  (length (flat_map (fun x => render x ++ [32%N]) c) <= (B + 1) * length c)%nat.
+Proof.
+  intros HB H. induction H as [|x c Hx Hc IH]; [cbn; lia|].
+  cbn [flat_map length]. rewrite !app_length. cbn [length]. specialize (HB x Hx). lia.
+Qed.
+
+Lemma array_fits_bound {A} (render : A -> list N) (P : A -> Prop) B bufsize l :
+  (forall x, P x -> (length (render x) <= B)%nat) -> Forall P l -> N.of_nat ((B + 1) * 10) < bufsize ->
+  array_fits bufsize render l = true.
+Proof.
+  intros HB Hl Hs. unfold array_fits. apply forallb_forall. intros c Hc.
+  pose proof (chunks10_spec P (length l) l Hl) as Hch. rewrite Forall_forall in Hch.
+  destruct (Hch c Hc) as [Hlen HP].
+  unfold line_fits. apply N.ltb_lt.
+  pose proof (flat_map_len_bound render P B c HB HP). nia.
+Qed.
+
+Lemma dist_fits_wf d : dist_wf d -> dist_fits GPINDEX_BUF d = true.
+Proof.
+  intros (Hv & Hi & Ho). unfold dist_fits. apply andb_true_intro. split.
+  - destruct (d_hetero d).
+    + apply (array_fits_bound _ (fun tg => fst tg < HWLOC_OBJ_TYPE_MAX /\ u64 (snd tg)) 29); [|exact Ho|vm_compute; reflexivity].
+      intros [ty gp] [Hty Hgp]. cbn [fst snd] in *. rewrite !app_length. cbn [length].
+      pose proof (type_string_len ty Hty). pose proof (dec_length_u64 gp Hgp). lia.
+    + apply (array_fits_bound _ u64 20); [|exact Hi|vm_compute; reflexivity].
+      intros x Hx. now apply dec_length_u64.
+  - apply (array_fits_bound _ u64 20); [|exact Hv|vm_compute; reflexivity].
+    intros x Hx. now apply dec_length_u64.
+Qed.
+
+Lemma export_total_l v2 ud T : Forall dist_wf (t_distances T) -> export_bytes v2 ud T <> None.
+Proof.
+  intros H. apply export_defined_iff_l. apply forallb_forall. intros d Hd.
+  apply dist_fits_wf. rewrite Forall_forall in H. now apply H.
 Qed.
